@@ -30,10 +30,11 @@
         sTakeQ k          inner select, `case m = <-sendQueue`
         sTickClosed k     `case <-t.C: if c.isClosed { return }`
         sTickIdle k       `… if invokeNum == 0 && idle time exceeded {` (guard abstracted: may happen
-                          at any tick at which the flag is not set — an over-approximation)
+                          at any tick at which the flag is not set — an over-approximation — unless
+                          the configuration `idleOK = false` says the idle timeout is out of reach)
         sIdleClose k      `c.close(conn); return }`
         sTickCont k       `continue`
-        mark got k        [yield "send.got"]
+        mark got k        [yield "send.got", directly in front of the write]
         sWriteOk k / sWriteLost k / sWriteFail k    `conn.Write(m.req)`: fails for certain on a
                           connection the client has closed itself, succeeds for certain on a live one;
                           on a connection the server has closed but the client has not yet, the bytes
@@ -58,7 +59,8 @@
     (1) `close(conn)` sets the shared flag only when `conn` is the current connection,
     (2) the inner `select` of `send` also receives from `sendFailQueue` and from `connDone`,
     (3) after a dequeue the sender asks `c.lost(conn)` (under the lock: `c.isClosed || c.conn != conn`)
-        and, if so, hands the request back through `sendFailQueue` and returns.
+        and, if so, hands the request back through `sendFailQueue` and returns
+        (`sCheckOk k` / `sCheckLost k`, `sHandback k`).
 -/
 import TarsModel.Generated.Consts
 
@@ -92,8 +94,8 @@ inductive SPc
   | pickFail             -- before the `sendFailQueue`-first select
   | atInner              -- before the yield point in front of the inner select
   | inner                -- in the inner select
-  | atGot (m : Msg)      -- has a request, before the yield point
-  | got (m : Msg)        -- repaired only: before `c.lost(conn)`
+  | got (m : Msg)        -- repaired only: has a request, before `c.lost(conn)`
+  | atGot (m : Msg)      -- has a request it is going to write, before the yield point
   | ready (m : Msg)      -- before `conn.Write`
   | failed (m : Msg)     -- write failed, before `sendFailQueue <- m`
   | failClosing          -- before `c.close(conn)` after a failed write
@@ -149,9 +151,14 @@ structure State where
   /-- observations made by the server so far -/
   accepted : Nat := 0
   seen : List (Nat × Nat) := []
+  /-- configuration: `IdleTimeout` is short enough for the idle close to be possible at all -/
+  idleOK : Bool := true
 deriving DecidableEq, Repr
 
 def init : State := {}
+
+/-- a client whose `IdleTimeout` is so long that the idle close cannot happen during the run -/
+def initNoIdle : State := { idleOK := false }
 
 /-- yield points of the `verif` hook -/
 inductive Point
@@ -225,10 +232,11 @@ def setCall (s : State) (m : Msg) (pc : CallPc) : State :=
 def dropCall (s : State) (id : Nat) : State :=
   { s with calls := s.calls.filter (fun x => !(x.1.id == id)) }
 
-/-- where a sender goes once it has passed the yield point after a dequeue -/
-def afterGot (v : Variant) (m : Msg) : SPc :=
+/-- where a sender goes once it has a request: as found straight to the yield point in front of the
+`Write`, repaired to the `c.lost(conn)` check first -/
+def afterDequeue (v : Variant) (m : Msg) : SPc :=
   match v with
-  | .asFound => .ready m
+  | .asFound => .atGot m
   | .repaired => .got m
 
 /-- One atomic step; `none` = the action is not enabled in this state. `cap` = `cap(sendQueue)`. -/
@@ -285,7 +293,7 @@ def step (v : Variant) (cap : Nat) (s : State) : Action → Option State
       match p, c.spc, c.rpc with
       | .top, .atTop, _ => some (setConn s k { c with spc := .top })
       | .inner, .atInner, _ => some (setConn s k { c with spc := .inner })
-      | .got, .atGot m, _ => some (setConn s k { c with spc := afterGot v m })
+      | .got, .atGot m, _ => some (setConn s k { c with spc := .ready m })
       | .closing, _, .atClosing => some (setConn s k { c with rpc := .closing })
       | _, _, _ => none
     | none => none
@@ -304,7 +312,7 @@ def step (v : Variant) (cap : Nat) (s : State) : Action → Option State
     match s.conns[k]? with
     | some c =>
       match c.spc, s.failQ with
-      | .pickFail, some m => some { setConn s k { c with spc := .atGot m } with failQ := none }
+      | .pickFail, some m => some { setConn s k { c with spc := afterDequeue v m } with failQ := none }
       | _, _ => none
     | none => none
   | .sNoFail k =>
@@ -318,7 +326,7 @@ def step (v : Variant) (cap : Nat) (s : State) : Action → Option State
     match s.conns[k]? with
     | some c =>
       match c.spc, s.sendQ with
-      | .inner, m :: q => some { setConn s k { c with spc := .atGot m } with sendQ := q }
+      | .inner, m :: q => some { setConn s k { c with spc := afterDequeue v m } with sendQ := q }
       | _, _ => none
     | none => none
   | .sTickClosed k =>
@@ -329,7 +337,8 @@ def step (v : Variant) (cap : Nat) (s : State) : Action → Option State
   | .sTickIdle k =>
     match s.conns[k]? with
     | some c =>
-      if c.spc = .inner ∧ s.isClosed = false then some (setConn s k { c with spc := .idleClosing })
+      if c.spc = .inner ∧ s.isClosed = false ∧ s.idleOK = true then
+        some (setConn s k { c with spc := .idleClosing })
       else none
     | none => none
   | .sTickCont k =>
@@ -346,7 +355,7 @@ def step (v : Variant) (cap : Nat) (s : State) : Action → Option State
     match v, s.conns[k]? with
     | .repaired, some c =>
       match c.spc, s.failQ with
-      | .inner, some m => some { setConn s k { c with spc := .atGot m } with failQ := none }
+      | .inner, some m => some { setConn s k { c with spc := afterDequeue v m } with failQ := none }
       | _, _ => none
     | _, _ => none
   | .sInnerDone k =>
@@ -360,7 +369,7 @@ def step (v : Variant) (cap : Nat) (s : State) : Action → Option State
     | some c =>
       match c.spc with
       | .got m =>
-        if s.isClosed = false ∧ isCur s k = true then some (setConn s k { c with spc := .ready m })
+        if s.isClosed = false ∧ isCur s k = true then some (setConn s k { c with spc := .atGot m })
         else none
       | _ => none
     | none => none
@@ -443,6 +452,7 @@ def run (v : Variant) (cap : Nat) (acts : List Action) : Option State := runFrom
 /-- the states reachable under any interleaving -/
 inductive Reachable (v : Variant) (cap : Nat) : State → Prop
   | init : Reachable v cap init
+  | initNoIdle : Reachable v cap initNoIdle
   | step {s s' : State} (a : Action) : Reachable v cap s → step v cap s a = some s' → Reachable v cap s'
 
 /-! ### The side condition of the partial theorem: no late step of an old connection
@@ -501,7 +511,13 @@ def fire (v : Variant) (cap : Nat) (s : State) : Event → List State
   | .probe c q f n =>
     if s.isClosed = c ∧ s.sendQ.length = q ∧ optLen s.failQ = f ∧ s.conns.length = n then [s] else []
 
-/-- internal (unobservable) actions enabled-or-not in `s` -/
+/-- internal (unobservable) actions -/
+def Action.isTau : Action → Bool
+  | .callBegin _ | .markReconnected _ | .callFail _ | .callRet _ | .pClose _ | .mark _ _
+  | .obsAccept _ | .obsRecv _ _ => false
+  | _ => true
+
+/-- the internal actions that may be enabled in `s` -/
 def tauActions (s : State) : List Action :=
   (s.calls.map (fun x => [Action.callReconnect x.1.id, .callEnq x.1.id])).flatten ++
   ((List.range s.conns.length).map (fun k =>
@@ -545,10 +561,11 @@ def admitsFrom (v : Variant) (cap : Nat) (limit : Nat) :
       if nxt.isEmpty then .error (i, 0)
       else admitsFrom v cap limit nxt rest (i + 1) (max mx cl.length)
 
-/-- Does the LTS have a run whose visible history is exactly `h`? (`false` also when the search
-exceeded `limit` states: nothing decided.) -/
-def admits (v : Variant) (cap : Nat) (h : List Event) (limit : Nat := 100000) : Bool :=
-  match admitsFrom v cap limit [init] h 0 1 with
+/-- Does the LTS have a run whose visible history is exactly `h`, for a client whose idle close is
+possible (`idle`) or out of reach? (`false` also when the search exceeded `limit` states: nothing
+decided.) -/
+def admits (v : Variant) (cap : Nat) (idle : Bool) (h : List Event) (limit : Nat := 100000) : Bool :=
+  match admitsFrom v cap limit [if idle then init else initNoIdle] h 0 1 with
   | .ok _ => true
   | .error _ => false
 
